@@ -177,6 +177,13 @@ func CompareLeaves(root *mimeread.Entity, leaves []gen.Leaf, nParts, nEmbeds, nA
 						if fn != want.Filename {
 							vs = append(vs, core.V(TextKey("leaf-filename", params["filename"], want.Filename, fn), "%s: filename %q decodes to %q, expected %q", where, params["filename"], fn, want.Filename))
 						}
+						// the RFC 2231 / RFC 6266 form of the parameter, which readers that know it prefer
+						if xfn, ok := mimeread.ExtendedParam(params, "filename"); ok && xfn != want.Filename {
+							vs = append(vs, core.V("leaf-filename", "%s: the extended parameter filename* (in %q) denotes %q, expected %q", where, cd, xfn, want.Filename))
+						}
+						if xnm, ok := mimeread.ExtendedParam(e.Params, "name"); ok && xnm != want.Filename {
+							vs = append(vs, core.V("leaf-filename", "%s: the extended parameter name* of Content-Type denotes %q, expected %q", where, xnm, want.Filename))
+						}
 						nm, _ := mimeread.DecodeWords(e.Params["name"])
 						if nm != want.Filename {
 							vs = append(vs, core.V(TextKey("leaf-filename", e.Params["name"], want.Filename, nm), "%s: Content-Type name %q decodes to %q, expected %q", where, e.Params["name"], nm, want.Filename))
